@@ -162,10 +162,24 @@ Definition parse_entity_decl (s : stream) (c : C) : res (stream * C) :=
   let! s := consume_byte text 62 s in
   Ok (s, c).
 
-(* consume_decl *)
+(* consume_decl: skips a markup declaration that is not processed.  A '>' inside a quoted
+   literal does not end the declaration.  Each iteration consumes at least one byte. *)
+Fixpoint consume_decl_loop (fuel : nat) (s : stream) : res stream :=
+  match fuel with
+  | O => OutOfFuel
+  | S fu =>
+    let s := skip_bytes (fun x => negb (x =? 62) && negb (x =? 34) && negb (x =? 39)) s in
+    let! c := curr_byte s in
+    let! s := advance 1 s in
+    if c =? 62 then Ok s
+    else
+      let s := skip_bytes (fun y => negb (y =? c)) s in
+      let! s := consume_byte text c s in
+      consume_decl_loop fu s
+  end.
+
 Definition consume_decl (s : stream) : res stream :=
-  let s := skip_bytes (fun x => negb (x =? 62)) s in
-  consume_byte text 62 s.
+  consume_decl_loop (S (length (s_rest s))) s.
 
 (* parse_doctype_start *)
 Definition parse_doctype_start (s : stream) : res stream :=
